@@ -24,7 +24,31 @@ def regenerate(hdir):
         with core.Lock("lake"):
             with open(p, "w") as f:
                 f.write(text)
-    return "Generated.lean regenerated from /repo (%d bytes, %d mutable statics)" % (len(text), len(syms))
+    note = regenerate_src()
+    return "Generated.lean regenerated from /repo (%d bytes, %d mutable statics); %s" % (len(text), len(syms), note)
+
+
+def regenerate_src():
+    """lean/AsamCmp/GeneratedSrc.lean: the byte-level functions of /repo/src/*.cpp translated from the typed clang AST
+    (vlib/srctrans.py).  The theorems of Props/SrcTie.lean are re-checked against it by the lake build that follows."""
+    from . import srctrans
+    p = os.path.join(core.LEAN, "AsamCmp", "GeneratedSrc.lean")
+    try:
+        T = srctrans.generate(core.REPO, os.path.join(core.CACHE, "srctrans-%d" % os.getpid()))
+        text = T.emit()
+        note = "GeneratedSrc.lean: %d functions translated from the clang AST, %d outside the subset" % (len(T.order), len(T.failed))
+    except srctrans.Untranslatable as e:
+        text = "/- GENERATED: the translator could not run: %s -/\nimport AsamCmp.Src.Sem\nnamespace AsamCmp.SrcGen\nend AsamCmp.SrcGen\n" % str(e).replace("-/", "- /")[:600]
+        note = "GeneratedSrc.lean: translator failed (%s)" % str(e)[:200]
+    finally:
+        import shutil
+        shutil.rmtree(os.path.join(core.CACHE, "srctrans-%d" % os.getpid()), ignore_errors=True)
+    old = open(p).read() if os.path.exists(p) else None
+    if old != text:
+        with core.Lock("lake"):
+            with open(p, "w") as f:
+                f.write(text)
+    return note
 
 
 ALLOW = ("std::__ioinit", "__asan", "__ubsan", "__odr_asan", "__tsan", "__sancov", "guard variable for std::", "DW.ref")
